@@ -677,6 +677,16 @@ Fixpoint sb_run (F : sb_facts) (fuel : nat) (rq : sb_req) {struct fuel} : sb_M s
 Definition sb_eval (F : sb_facts) (fuel : nat) (fr : sb_frame) (e : sb_expr) : sb_M sb_val :=
   sb_run F fuel (SbRqEval fr e).
 
+(* ConsoleHandler::ExecuteScriptHelper: Serialize(exprResult, 0[, sandboxed]) - outside the evaluator.  With
+   [all_fields] every field of a returned config object is read, the no_user_view ones included. *)
+Definition sb_console_result (F : sb_facts) (all_fields : bool) (v : sb_val) : list sb_read :=
+  match v with
+  | SbVObj ty _ =>
+      if all_fields then map (fun p => SbRdField (fst p) (snd p)) (filter (fun p => fst p =? ty) (sbf_hidden F))
+      else []
+  | _ => []
+  end.
+
 (* the protected component *)
 Definition sb_protected (s : sb_st) : list sb_cell * list sb_name := (sbs_shared s, sbs_extern s).
 
@@ -689,6 +699,24 @@ Definition sb_safe_funcs_harmless (F : sb_facts) : bool :=
           (sbf_funcs F).
 Definition sb_callbacks_guarded (F : sb_facts) : bool :=
   forallb (fun nm => sb_lookupb nm (sbf_cbguards F)) sb_higher_names.
+(* source-derived cross-check of the classification: [scan] = (name, (body located, body calls a mutator on an object
+   it did not create, or touches files/processes/registries)).  No function registered side-effect-free may have a
+   located dirty body; at least [min_located] of them must have been located (the rest is covered behaviourally). *)
+Definition sb_safe_bodies_clean (F : sb_facts) (scan : list (sb_name * (bool * bool))) (min_located : nat) : bool :=
+  forallb (fun p => negb (snd p) ||
+                    match sb_assoc (fst p) scan with Some (true, dirty) => negb dirty | _ => true end) (sbf_funcs F) &&
+  Nat.leb min_located
+    (List.length (filter (fun p => snd p && match sb_assoc (fst p) scan with Some (true, _) => true | _ => false end)
+                         (sbf_funcs F))).
+(* ... and the same scan flags every builtin the model classifies as mutating its receiver (sanity of the scan) *)
+Definition sb_scan_sees_mutators (scan : list (sb_name * (bool * bool))) (names : list sb_name) : bool :=
+  forallb (fun n => match sb_assoc n scan with Some (true, true) => true | _ => false end) names.
+Definition sb_container_mutators : list sb_name := Eval vm_compute in
+  map sb_enc ["Array#add"; "Array#set"; "Array#remove"; "Array#clear"; "Array#freeze"; "Dictionary#set";
+              "Dictionary#remove"; "Dictionary#clear"; "Dictionary#freeze"; "Namespace#set"; "Namespace#remove";
+              "Reference#set"; "ConfigObject#modify_attribute"; "ConfigObject#restore_attribute";
+              "Checkable#process_check_result"]%string.
+
 (* the types frames use as Self have no hidden fields *)
 Definition sb_containers_clean (F : sb_facts) : bool :=
   sb_type_clean F sb_t_Namespace && sb_type_clean F sb_t_Dictionary.
